@@ -297,6 +297,9 @@ def _ids_rest(ctx, report, rule, facts, config, nidb):
             for st in blk["stmts"]:
                 if st["k"] == "assign":
                     pp = st["place"]["p"]
+                    rv_ = st["rv"]
+                    if rv_.get("k") in ("ref", "rawptr") and str(rv_.get("bk", "")).lower().startswith("mut"):
+                        pp = rv_["place"]["p"]    # an exclusive borrow of the counter is a way to write it
                     if pp and pp[-1]["k"] == "field" and pp[-1].get("adt") == A.DB and pp[-1].get("name") == "current_id":
                         n += 1
                         report.ob(rule, "current_id-writer/%s" % b.qname, b.key == nb.key, "current_id is assigned in %s" % b.qname, site=b.loc(bi), config=config)
